@@ -198,6 +198,8 @@ def check(plan, r):
         elif e.f == "C_SetAttributeValue" and isinstance(e.op.get("o"), str) and e.ok:
             for x in e.op["tmpl"]:
                 if x[1] == "x": writes.setdefault((e.op["o"], x[0]), []).append((e.inv, e.retn, bytes.fromhex(x[2]), e))
+    global writes_all, events_all
+    writes_all = writes; events_all = evs
     def destroyed_before(ref, n):   # an acknowledged destroy that returned before event n
         return any(d.ok and d.retn < n for d in destroys.get(ref, []))
     def destroy_started_before(ref, n):
@@ -339,6 +341,9 @@ def check(plan, r):
         seen.add(key); out.append(v)
     return out[:6]
 
+events_all = []      # every call event of the run being judged
+writes_all = {}      # (object, attribute) -> [(inv, ret, value, event)] of the run being judged (set by check(); C18 sets it too)
+
 def check_values(e, ref, attrs, candidates, where, policy, st, create, copy_src):
     out = []
     if ref in copy_src: types = [K.CKA_LABEL]      # a copy inherits whatever its source held at that instant; only what the copy template set is predicted
@@ -355,8 +360,15 @@ def check_values(e, ref, attrs, candidates, where, policy, st, create, copy_src)
         if any(w_[3].pid != e.pid for w_ in []): pass
         if not any(same(t_, c, v) for c in cands):
             lost = len(cands) == 1
+            # the known lost-update finding needs two processes writing the SAME object at the SAME time (one commits inside the other's refresh..lock
+            # window); a lost or stale value without such an overlap has another cause
+            c_ = create.get(ref)
+            is_default = bool("v" in a and (a["v"] == "" or set(a["v"]) <= {"0"}))
+            observed = bool(c_ is not None and any(o_.pid != c_.pid and o_.f in ("@find", "@readout", "@readattrs", "C_SetAttributeValue", "C_CopyObject", "C_DestroyObject") and o_.inv < c_.retn and c_.inv < o_.retn for o_ in events_all))
+            wr = [w_ for (r_, _t), lst in writes_all.items() if r_ == ref for w_ in lst]
+            overlap = any(a_[3].pid != b_[3].pid and a_[0] < b_[1] and b_[0] < a_[1] for i_, a_ in enumerate(wr) for b_ in wr[i_ + 1:])
             out.append(_v("C15.lost_update" if where != "run" else "C15.wrong_value", "process %d reads %s = %s of object %s; the acknowledged writes allow only %s [%s, policy %s]%s" % (e.pid, K.name("CKA", t_), fmt(v), ref, [fmt(c) for c in cands[:3]], where, policy,
-                          " - an acknowledged change was lost" if lost else ""), call="C_GetAttributeValue", op=e.k, where=where, policy=policy, attr=K.name("CKA", t_), manifestation="lost_update" if where != "run" else "stale_or_lost_value"))
+                          " - an acknowledged change was lost" if lost else ""), call="C_GetAttributeValue", op=e.k, where=where, policy=policy, attr=K.name("CKA", t_), manifestation="lost_update" if where != "run" else "stale_or_lost_value", overlapping_writes=overlap, value_is_default=is_default, created_under_observation=observed))
         else:
             st("foreign_value_read")
     return out
